@@ -478,3 +478,35 @@ pub fn gen_devices(a: &Args, out: &mut Out) {
         m.end(out);
     }
 }
+
+/// RP leg of C32: replay histories enumerated by TLC (spec/MC_Devices.tla) on a real Simulator.
+/// `hist=<file>`: one JSON array of 1-based op indices per line; `ops=<file>`: the op alphabet.
+pub fn replay_devices(a: &Args, out: &mut Out) {
+    let ops: Vec<serde_json::Value> = std::fs::read_to_string(a.get_str("ops", "")).expect("ops file")
+        .lines().filter(|l| !l.trim().is_empty()).map(|l| serde_json::from_str(l).expect("op")).collect();
+    let hist = std::fs::read_to_string(a.get_str("hist", "")).expect("hist file");
+    set_pair_tag("none");
+    crate::machine::LIGHT_HEADERS.with(|l| l.set(true));
+    let mut run = 0u64;
+    for line in hist.lines() {
+        if line.trim().is_empty() { continue; }
+        let h: Vec<usize> = serde_json::from_str(line).expect("history");
+        run += 1;
+        let mut m = M::new(run, known(0, false, false), out);
+        for k in h {
+            let o = &ops[k - 1];
+            let u = |f: &str| o[f].as_u64().unwrap_or(0) as u16;
+            match o["op"].as_str().unwrap() {
+                "adddev" => { let ps: Vec<u16> = o["ports"].as_array().unwrap().iter().map(|x| x.as_u64().unwrap() as u16).collect(); m.add_regdev(out, &ps, u("val")); }
+                "rmdev" => m.remove_device(out, u("id")),
+                "mmap" => m.mmap(out, u("a"), match o["reg"].as_str().unwrap() { "PC" => InternalRegister::PC, "PSR" => InternalRegister::PSR, "MCR" => InternalRegister::MCR, _ => InternalRegister::SavedSP }),
+                "munmap" => m.munmap(out, u("a")),
+                "rmem" => m.read_mem(out, u("a"), MemAccessCtx::omnipotent()),
+                "wmem" => m.write_mem(out, u("a"), word(u("v"), 0xFFFF), MemAccessCtx::omnipotent()),
+                other => panic!("unknown op {other}"),
+            }
+            if m.dead { break; }
+        }
+        m.end(out);
+    }
+}
